@@ -7,13 +7,13 @@ CONC_ALL = ["basic", "mixed", "guards", "nofast", "helping", "cas", "multi", "ch
 PROPS = {
     "C01": dict(props="Props/C01.v", runner="conc",
                 families=["mixed", "guards", "nofast", "helping", "multi", "churn"],
-                scenarios=["s01", "s02", "s03", "s04", "s05", "s06", "s07", "s10", "s13", "s14"], deep=["s03"], prot_check=True),
+                scenarios=["s01", "s02", "s03", "s04", "s05", "s06", "s07", "s10", "s13", "s14"], deep=["s03"], prot_check=True, stale=True),
     "C02": dict(props="Props/C02.v", runner="conc",
                 families=["basic", "mixed", "guards", "helping", "cas", "multi"],
                 scenarios=["s01", "s02", "s03", "s04", "s07", "s08", "s09", "s11", "s13", "s14", "s16"], acc_check=True),
     "C03": dict(props="Props/C03.v", runner="conc",
                 families=["mixed", "guards", "nofast", "helping", "cas", "multi"],
-                scenarios=["s01", "s03", "s04", "s05", "s06", "s08", "s09", "s20"]),
+                scenarios=["s01", "s03", "s04", "s05", "s06", "s08", "s09", "s20"], stale=True),
     "C04": dict(props="Props/C04.v", runner="conc",
                 families=["basic", "mixed", "cas", "helping", "multi"],
                 scenarios=["s05", "s07", "s08", "s09", "s13", "s14", "s19"], deep=["s19"], litmus=True),
@@ -32,7 +32,7 @@ PROPS = {
     "C11": dict(props="Props/C11.v", runner="conc",
                 families=["churn", "seqchurn", "mixed"], scenarios=["s10", "s17"], late=True),
     "C12": dict(props="Props/C12.v", runner="conc",
-                families=["multi", "mixed"], scenarios=["s06", "s11"], typed=True),
+                families=["multi", "mixed"], scenarios=["s06", "s11"], typed=True, stale=True),
     "C13": dict(props="Props/C13.v", runner="conc",
                 families=["wrap", "basic", "helping"], scenarios=["s15", "s23"]),
     "C14": dict(props="Props/C14.v", runner="seq"),
